@@ -18,7 +18,7 @@ struct U {
     dims: Dims,
 }
 
-const TFORMS: usize = 19;
+const TFORMS: usize = 25;
 
 pub struct C06 {
     fams: Fams,
@@ -307,6 +307,14 @@ fn target(f: usize, t: &U, u: &U) -> Option<(String, Rat, Dims)> {
         16 => (format!("(1 or 2) {}", tn), rat(3, 1) * tv, t.dims.clone()),
         17 => (format!("(1 << 2) {}", tn), rat(4, 1) * tv, t.dims.clone()),
         18 => (format!("(16 >> 2) {}", tn), rat(4, 1) * tv, t.dims.clone()),
+        // constants of ten and more digits that are not round: the printed factor must keep every digit
+        19 => (format!("1073741824 {}", tn), rat(1073741824, 1) * tv, t.dims.clone()),
+        20 => (format!("149597870700 {}", tn), rat(149597870700, 1) * tv, t.dims.clone()),
+        21 => (format!("{} / 1234567891", tn), tv / rat(1234567891, 1), t.dims.clone()),
+        22 => (format!("1234567891|987654321 {}", tn), rat(1234567891, 987654321) * tv, t.dims.clone()),
+        // a constant under a non-integer power: shown consistently or refused, never silently truncated
+        23 => (format!("4^0.5 {}", tn), rat(2, 1) * tv, t.dims.clone()),
+        24 => (format!("2^1.5 {}", tn), rat(2, 1) * tv, t.dims.clone()),
         _ => return None,
     })
 }
@@ -402,7 +410,7 @@ impl Space for C06 {
         Meta {
             id: "C06",
             level: "exploration",
-            rule: "(a) every exact registry unit and base unit x magnitudes {0.999, 1, 1000} x 10^(3k) (every SI-prefix boundary, k in -10..10 thorough) x powers {1,2,3,-1}; (b) every product of up to 3 (thorough 4) distinct base units with exponents in {-2,-1,1,2} (all derived-unit regroupings) x {1, 1500}; (c) conversions of 3 values into 19 target shapes (constants, 1|3, sign, squares, products, quotients, sums, differences, mod, and/or/xor and shift constants) over a 10-unit core; (d) digits/sci/eng/frac/base modes; (e2) 30 results in a second, CGS-style database in which newton, joule, pascal, watt, ... are not worth 1 in base units (regrouping and prefix logic must not assume the bundled values); (e) every substance x 4 amounts, every reported property and unit-list/duration entry. Oracle: the reply's numeral (independent reader) x factor/divfactor x product of the printed unit names resolved with Context::lookup must equal the quantity computed by the harness from the registry dump, exactly for exact numerals and within one last-digit unit otherwise; raw_dimensions and quantity must be those of the result. Non-trivial = a numeric reply was judged; distinct by query text".into(),
+            rule: "(a) every exact registry unit and base unit x magnitudes {0.999, 1, 1000} x 10^(3k) (every SI-prefix boundary, k in -10..10 thorough) x powers {1,2,3,-1}; (b) every product of up to 3 (thorough 4) distinct base units with exponents in {-2,-1,1,2} (all derived-unit regroupings) x {1, 1500}; (c) conversions of 3 values into 19 target shapes (constants, 1|3, sign, squares, products, quotients, sums, differences, mod, and/or/xor and shift constants, non-round constants of ten and more digits as factor and as divisor, constants under a non-integer power - shown consistently or refused) over a 10-unit core; (d) digits/sci/eng/frac/base modes; (e2) 30 results in a second, CGS-style database in which newton, joule, pascal, watt, ... are not worth 1 in base units (regrouping and prefix logic must not assume the bundled values); (e) every substance x 4 amounts, every reported property and unit-list/duration entry. Oracle: the reply's numeral (independent reader) x factor/divfactor x product of the printed unit names resolved with Context::lookup must equal the quantity computed by the harness from the registry dump, exactly for exact numerals and within one last-digit unit otherwise; raw_dimensions and quantity must be those of the result. Non-trivial = a numeric reply was judged; distinct by query text".into(),
             assumptions: vec![
                 "temperature-scale replies are decided by C10".into(),
                 "float-valued units are skipped".into(),
@@ -549,6 +557,11 @@ impl Space for C06 {
             }
             (Ok(o), _) => {
                 out.outcome = format!("other reply: {}", reply_kind(o));
+                out.key = None;
+            }
+            (Err(_), 1) if q.contains("^0.5 ") || q.contains("^1.5 ") => {
+                // a non-integer power of a target constant may be refused
+                out.outcome = "conversion refused (non-integer power in the target)".into();
                 out.key = None;
             }
             (Err(e), 1) => {
